@@ -127,7 +127,8 @@ package engine
 //@   at-call Unify requires[for-the-caller-s-continuation-under-the-caller-s-bindings] a0 == vm && a3 == k && a4 == env
 
 //@ func SkipMaxList
-//@   property C16
+//@   property C16 C13
+//@   at-store ListIterator.AllowCycle? requires[a-walk-inside-one-go-loop-ends-at-a-cycle-or-it-cannot-be-cancelled] !v
 //@   nosafety
 //@   trusted-frame
 //@   let mx = resolve(env, max)
@@ -220,7 +221,8 @@ package engine
 //@   at-call nth requires[the-caller-s-arguments-continuation-and-bindings] a0 == vm && a2 == n && a3 == list && a4 == elem && a5 == k && a6 == env
 
 //@ func nth
-//@   property C16
+//@   property C16 C13
+//@   at-store ListIterator.AllowCycle requires[a-walk-inside-one-go-loop-ends-at-a-cycle-or-it-cannot-be-cancelled] !v
 //@   nosafety
 //@   trusted-frame
 //@   requires[the-first-index-is-zero-or-one] base == 0 || base == 1
